@@ -944,6 +944,7 @@ func vspecCWM(src []byte) int { return vspecCW(src) + 2 + vspecBE16(src, vspecCW
 
 //@ func (*ConnectMessage).Len
 //@   requires vdefConnSizes(m)
+//@   ensures[C03:range] 0 <= result && (old(m.dirty) ==> result <= 400010)
 //@   ensures[C03:len] !old(m.dirty) ==> result == len(m.dbuf) && m.remlen == old(m.remlen) && !m.dirty
 //@   ensures[C03:len] old(m.dirty) ==> result == 1+vspecVarintLen(vdefConnBody(m))+vdefConnBody(m) && int(m.remlen) == vdefConnBody(m) && m.dirty
 //@   modifies m.remlen, m.dirty
@@ -1001,7 +1002,7 @@ func vspecCWM(src []byte) int { return vspecCW(src) + 2 + vspecBE16(src, vspecCW
 //@   modifies fields(result)
 
 //@ func NewConnectMessage
-//@   ensures vdefFreshMsg(result, CONNECT)
+//@   ensures vdefFreshMsg(result, CONNECT) && len(result.willTopic) == 0 && len(result.willMessage) == 0 && len(result.username) == 0 && len(result.password) == 0 && len(result.clientID) == 0 && len(result.protoName) == 0
 //@   modifies fields(result)
 //@ func NewConnackMessage
 //@   ensures vdefFreshMsg(result, CONNACK)
@@ -1110,3 +1111,13 @@ func vspecCWM(src []byte) int { return vspecCW(src) + 2 + vspecBE16(src, vspecCW
 //@   ensures[C08:clone-fresh] err == nil ==> cm != nil && fresh(cm) && len(cm.mtypeflags) == 1 && fresh(arr(cm.mtypeflags)) && Type(cm.mtypeflags[0]>>4) == PUBLISH
 //@   ensures[C08:clone-fresh] err != nil ==> cm == nil
 //@   modifies m.remlen, m.dirty, m.packetID, gPacketID, gfield(0, "encn"), gfield(0, "encarr"), gfield(0, "encoff"), gfield(0, "encAt"), fields(cm)
+
+//@ func (*ConnectMessage).ClientID
+//@   pure
+//@   ensures sameslice(result, m.clientID) && cap(result) == cap(m.clientID)
+//@ func (*ConnectMessage).WillTopic
+//@   pure
+//@   ensures sameslice(result, m.willTopic) && cap(result) == cap(m.willTopic)
+//@ func (*ConnectMessage).WillMessage
+//@   pure
+//@   ensures sameslice(result, m.willMessage) && cap(result) == cap(m.willMessage)
